@@ -194,6 +194,8 @@ type Decomp struct {
 	Constraint *Term
 	Captures   map[string]*Term
 	Fresh      []*Term // fresh variables introduced
+	Munch      []*Term // remaining-subject terms that must not be longer than Bound
+	Bound      int
 }
 
 type decomposer struct {
@@ -202,6 +204,8 @@ type decomposer struct {
 	vars   []*Term
 	err    error
 	wanted map[string]bool // nil: every named capture
+	bound  int             // length bound used by the maximal-munch constraints
+	munch  []*Term         // remaining-subject terms whose length must be <= bound (obligations)
 }
 
 // hasWanted reports whether t contains a capture the decomposition must expose.
@@ -219,8 +223,113 @@ func (d *decomposer) hasWanted(t *syntax.Regexp) bool {
 
 // decompose returns a constraint under which `subject` is matched by t, with
 // named captures bound in d.caps. present=false callers bind captures to "".
-func (d *decomposer) decompose(t *syntax.Regexp, subject *Term) *Term {
-	if !d.hasWanted(t) {
+// inLang: subject ∈ L(re) for a RegLan text.
+func inLang(subject *Term, smt string) *Term {
+	if subject.IsConst() {
+		// decide natively when possible is not available for raw RegLan; keep symbolic
+	}
+	return &Term{Op: "in_re", Args: []*Term{subject}, Sort: SBool, Re: &Regex{Pattern: "cont", SMT: smt}}
+}
+
+func reConcat(parts ...string) string {
+	var ps []string
+	for _, p := range parts {
+		if p != "" && p != `(str.to_re "")` {
+			ps = append(ps, p)
+		}
+	}
+	switch len(ps) {
+	case 0:
+		return `(str.to_re "")`
+	case 1:
+		return ps[0]
+	}
+	return "(re.++ " + strings.Join(ps, " ") + ")"
+}
+
+// fixedWidth reports whether every string of L(t) has the same length.
+func fixedWidth(t *syntax.Regexp) bool {
+	switch t.Op {
+	case syntax.OpLiteral, syntax.OpCharClass, syntax.OpAnyChar, syntax.OpAnyCharNotNL, syntax.OpEmptyMatch, syntax.OpBeginText, syntax.OpEndText:
+		return true
+	case syntax.OpCapture:
+		return fixedWidth(t.Sub[0])
+	case syntax.OpConcat:
+		for _, c := range t.Sub {
+			if !fixedWidth(c) {
+				return false
+			}
+		}
+		return true
+	case syntax.OpRepeat:
+		return t.Min == t.Max && fixedWidth(t.Sub[0])
+	}
+	return false
+}
+
+// greedy: no non-greedy operator inside.
+func greedy(t *syntax.Regexp) bool {
+	if t.Flags&syntax.NonGreedy != 0 {
+		return false
+	}
+	for _, c := range t.Sub {
+		if !greedy(c) {
+			return false
+		}
+	}
+	return true
+}
+
+// decompose returns a constraint under which `subject` is matched by t, with
+// named captures bound in d.caps. contRe / contSubj describe what follows t
+// in the whole (fully anchored) pattern: the regular language of the
+// continuation and the term of the remaining subject. They are used to encode
+// Go's leftmost-first preferences (DESIGN 3.5): an optional group is absent
+// only if no match with the group present exists, an alternative is taken only
+// if no earlier one leads to a match, and a greedy variable-width part takes
+// the longest prefix that still lets the continuation match.
+func (d *decomposer) decompose(t *syntax.Regexp, subject *Term, contRe string, contSubj *Term) *Term {
+	return d.decomposeF(t, subject, contRe, contSubj, false)
+}
+
+// mayContain reports whether some string of L(t) contains rune r (conservative).
+func mayContain(t *syntax.Regexp, r rune) bool {
+	switch t.Op {
+	case syntax.OpLiteral:
+		for _, x := range t.Rune {
+			if x == r {
+				return true
+			}
+		}
+		return false
+	case syntax.OpCharClass:
+		for i := 0; i+1 < len(t.Rune); i += 2 {
+			if t.Rune[i] <= r && r <= t.Rune[i+1] {
+				return true
+			}
+		}
+		return false
+	case syntax.OpAnyChar:
+		return true
+	case syntax.OpAnyCharNotNL:
+		return r != '\n'
+	case syntax.OpEmptyMatch, syntax.OpBeginText, syntax.OpEndText, syntax.OpNoMatch:
+		return false
+	}
+	for _, c := range t.Sub {
+		if mayContain(c, r) {
+			return true
+		}
+	}
+	return len(t.Sub) == 0
+}
+
+// force: decompose structurally even without a wanted capture inside (used
+// for the parts that precede a wanted capture, whose own preferences decide
+// where the capture starts).
+func (d *decomposer) decomposeF(t *syntax.Regexp, subject *Term, contRe string, contSubj *Term, force bool) *Term {
+	structural := t.Op == syntax.OpCapture || t.Op == syntax.OpConcat || t.Op == syntax.OpAlternate || t.Op == syntax.OpQuest
+	if !d.hasWanted(t) && !(force && structural && !fixedWidth(t)) {
 		smt, err := reLang(t)
 		if err != nil {
 			d.err = err
@@ -237,10 +346,17 @@ func (d *decomposer) decompose(t *syntax.Regexp, subject *Term) *Term {
 		}
 		return &Term{Op: "in_re", Args: []*Term{subject}, Sort: SBool, Re: re}
 	}
+	if !greedy(t) {
+		d.err = fmt.Errorf("non-greedy operators around named captures are not supported")
+		return FalseT
+	}
 	switch t.Op {
 	case syntax.OpCapture:
-		c := d.decompose(t.Sub[0], subject)
-		if t.Name != "" && (d.wanted == nil || d.wanted[t.Name]) {
+		wantedHere := t.Name != "" && (d.wanted == nil || d.wanted[t.Name])
+		// the extent of a wanted capture is decided by the preferences inside it
+		// (nothing to decide if it extends to the end of the subject)
+		c := d.decomposeF(t.Sub[0], subject, contRe, contSubj, force || (wantedHere && contRe != `(str.to_re "")`))
+		if wantedHere {
 			if _, dup := d.caps[t.Name]; dup {
 				d.err = fmt.Errorf("duplicate capture name %q", t.Name)
 			}
@@ -248,20 +364,76 @@ func (d *decomposer) decompose(t *syntax.Regexp, subject *Term) *Term {
 		}
 		return c
 	case syntax.OpConcat:
-		var parts []*Term
-		var cs []*Term
+		var subs []*syntax.Regexp
 		for _, sub := range t.Sub {
-			if sub.Op == syntax.OpLiteral && sub.Flags&syntax.FoldCase == 0 {
-				parts = append(parts, StrT(string(sub.Rune)))
+			if sub.Op == syntax.OpBeginText || sub.Op == syntax.OpEndText {
 				continue
 			}
-			if sub.Op == syntax.OpBeginText || sub.Op == syntax.OpEndText {
+			subs = append(subs, sub)
+		}
+		parts := make([]*Term, len(subs))
+		langs := make([]string, len(subs))
+		for i, sub := range subs {
+			l, err := reLang(sub)
+			if err != nil {
+				d.err = err
+				return FalseT
+			}
+			langs[i] = l
+			if sub.Op == syntax.OpLiteral && sub.Flags&syntax.FoldCase == 0 {
+				parts[i] = StrT(string(sub.Rune))
 				continue
 			}
 			v := d.fresh("re", SString)
 			d.vars = append(d.vars, v)
-			parts = append(parts, v)
-			cs = append(cs, d.decompose(sub, v))
+			parts[i] = v
+		}
+		lastWanted := -1
+		for i, sub := range subs {
+			if d.hasWanted(sub) {
+				lastWanted = i
+			}
+		}
+		if force {
+			lastWanted = len(subs)
+		}
+		var cs []*Term
+		for i, sub := range subs {
+			kRe := reConcat(append(append([]string{}, langs[i+1:]...), contRe)...)
+			kSubj := Concat(append(append([]*Term{}, parts[i+1:]...), contSubj)...)
+			if !parts[i].IsConst() || sub.Op != syntax.OpLiteral {
+				cs = append(cs, d.decomposeF(sub, parts[i], kRe, kSubj, force || i < lastWanted))
+			}
+			// a part whose end is marked by a literal that cannot occur inside it needs no look-ahead
+			delimited := false
+			if i+1 < len(subs) && subs[i+1].Op == syntax.OpLiteral && len(subs[i+1].Rune) > 0 && !mayContain(sub, subs[i+1].Rune[0]) {
+				delimited = true
+			}
+			inner := sub
+			for inner.Op == syntax.OpCapture {
+				inner = inner.Sub[0]
+			}
+			// maximal munch for a greedy variable-width part that is followed by something
+			if !fixedWidth(sub) && !delimited && i <= lastWanted && (i+1 < len(subs) || contRe != `(str.to_re "")`) && inner.Op != syntax.OpQuest && inner.Op != syntax.OpAlternate && inner.Op != syntax.OpConcat {
+				if inner.Op == syntax.OpStar || inner.Op == syntax.OpPlus {
+					// a trailing loop T*: after any match the residual language is T*, so
+					// "no longer match lets the continuation succeed" is one regular
+					// constraint on the remaining subject: it is not in T+ · K
+					tl, err := reLang(inner.Sub[0])
+					if err != nil {
+						d.err = err
+						return FalseT
+					}
+					cs = append(cs, Not(inLang(kSubj, reConcat("(re.+ "+tl+")", kRe))))
+				} else {
+					d.munch = append(d.munch, kSubj)
+					for p := 1; p <= d.bound; p++ {
+						ext := Concat(parts[i], Substr(kSubj, IntT(0), IntT(int64(p))))
+						rest := Substr(kSubj, IntT(int64(p)), Sub(Len(kSubj), IntT(int64(p))))
+						cs = append(cs, Not(And(Le(IntT(int64(p)), Len(kSubj)), inLang(ext, langs[i]), inLang(rest, kRe))))
+					}
+				}
+			}
 		}
 		cs = append(cs, Eq(subject, Concat(parts...)))
 		return And(cs...)
@@ -274,19 +446,25 @@ func (d *decomposer) decompose(t *syntax.Regexp, subject *Term) *Term {
 			caps map[string]*Term
 		}
 		var rs []altRes
+		var langs []string
 		for _, sub := range t.Sub {
-			sd := &decomposer{fresh: d.fresh, caps: map[string]*Term{}, wanted: d.wanted}
-			c := sd.decompose(sub, subject)
+			sd := &decomposer{fresh: d.fresh, caps: map[string]*Term{}, wanted: d.wanted, bound: d.bound}
+			c := sd.decomposeF(sub, subject, contRe, contSubj, force)
 			if sd.err != nil {
 				d.err = sd.err
 			}
 			d.vars = append(d.vars, sd.vars...)
+			d.munch = append(d.munch, sd.munch...)
 			for n := range sd.caps {
 				names[n] = true
 			}
 			rs = append(rs, altRes{c, sd.caps})
+			l, err := reLang(sub)
+			if err != nil {
+				d.err = err
+			}
+			langs = append(langs, l)
 		}
-		// one choice variable per alternative via an Int selector
 		sel := d.fresh("alt", SInt)
 		d.vars = append(d.vars, sel)
 		outs := map[string]*Term{}
@@ -296,8 +474,13 @@ func (d *decomposer) decompose(t *syntax.Regexp, subject *Term) *Term {
 			outs[n] = v
 			d.caps[n] = v
 		}
+		whole := Concat(subject, contSubj)
 		for i, r := range rs {
 			conj := []*Term{Eq(sel, IntT(int64(i))), r.c}
+			// leftmost-first: no earlier alternative leads to a match
+			for j := 0; j < i; j++ {
+				conj = append(conj, Not(inLang(whole, reConcat(langs[j], contRe))))
+			}
 			for n := range names {
 				if ct, ok := r.caps[n]; ok {
 					conj = append(conj, Eq(outs[n], ct))
@@ -309,16 +492,22 @@ func (d *decomposer) decompose(t *syntax.Regexp, subject *Term) *Term {
 		}
 		return Or(alts...)
 	case syntax.OpQuest:
-		sd := &decomposer{fresh: d.fresh, caps: map[string]*Term{}, wanted: d.wanted}
-		c := sd.decompose(t.Sub[0], subject)
+		sd := &decomposer{fresh: d.fresh, caps: map[string]*Term{}, wanted: d.wanted, bound: d.bound}
+		c := sd.decomposeF(t.Sub[0], subject, contRe, contSubj, force)
 		if sd.err != nil {
 			d.err = sd.err
 		}
 		d.vars = append(d.vars, sd.vars...)
+		d.munch = append(d.munch, sd.munch...)
 		present := d.fresh("opt", SBool)
 		d.vars = append(d.vars, present)
+		inner, err := reLang(t.Sub[0])
+		if err != nil {
+			d.err = err
+		}
 		conjP := []*Term{present, c}
-		conjA := []*Term{Not(present), Eq(subject, StrT(""))}
+		// greedy ?: absent only if no match with the group present exists
+		conjA := []*Term{Not(present), Eq(subject, StrT("")), Not(inLang(contSubj, reConcat(inner, contRe)))}
 		for n, ct := range sd.caps {
 			v := d.fresh("cap_"+n, SString)
 			d.vars = append(d.vars, v)
@@ -341,6 +530,12 @@ func DecomposeCaptures(pattern string, subject *Term, fresh func(string, Sort) *
 // DecomposeWanted exposes only the named captures in wanted (nil = all); the
 // rest of the expression stays a plain regular-language constraint.
 func DecomposeWanted(pattern string, subject *Term, fresh func(string, Sort) *Term, wanted map[string]bool) (*Decomp, error) {
+	return DecomposeBounded(pattern, subject, fresh, wanted, 12)
+}
+
+// DecomposeBounded: bound limits the maximal-munch look-ahead (remaining
+// subjects longer than that must be excluded by the caller).
+func DecomposeBounded(pattern string, subject *Term, fresh func(string, Sort) *Term, wanted map[string]bool, bound int) (*Decomp, error) {
 	tree, err := syntax.Parse(pattern, syntax.Perl)
 	if err != nil {
 		return nil, err
@@ -349,8 +544,8 @@ func DecomposeWanted(pattern string, subject *Term, fresh func(string, Sort) *Te
 	if !begin || !end {
 		return nil, fmt.Errorf("captures on unanchored regex %q unsupported", pattern)
 	}
-	d := &decomposer{fresh: fresh, caps: map[string]*Term{}, wanted: wanted}
-	c := d.decompose(inner, subject)
+	d := &decomposer{fresh: fresh, caps: map[string]*Term{}, wanted: wanted, bound: bound}
+	c := d.decompose(inner, subject, `(str.to_re "")`, StrT(""))
 	if d.err != nil {
 		return nil, d.err
 	}
@@ -359,7 +554,7 @@ func DecomposeWanted(pattern string, subject *Term, fresh func(string, Sort) *Te
 			return nil, fmt.Errorf("capture %q not found in %q", n, pattern)
 		}
 	}
-	return &Decomp{Constraint: c, Captures: d.caps, Fresh: d.vars}, nil
+	return &Decomp{Constraint: c, Captures: d.caps, Fresh: d.vars, Munch: d.munch, Bound: bound}, nil
 }
 
 // CaptureNames returns SubexpNames of the pattern.
